@@ -314,8 +314,12 @@ func c09RoundTrip(c *Ctx, r *Report, pi parserInfo, crc *ssa.Function, pkgRel st
 					}
 				}
 			}
+			sigText := c.exprAtReturn(rs.instr)
+			if rng != "" {
+				sigText = "" // which requests are refused identifies the finding, not how the return is spelled
+			}
 			rep(false, "parser can refuse a request the library itself encoded"+v.name, "rejecting return at "+c.pos(rs.instr.Pos())+" feasible under "+truncate(rs.state.String(), 400),
-				"refuses@"+c.exprAtReturn(rs.instr)+v.name+rng)
+				"refuses@"+sigText+v.name+rng)
 			okAll = false
 		}
 		for _, o := range an.obligs {
